@@ -107,6 +107,7 @@ type Conn struct {
 	local, rem net.Addr
 	closed     bool
 	waiting    bool
+	failNext   bool // the next Write forwards only half of its data and returns an error (a transport failure)
 	// WriteHook, if set, transforms/ replaces outgoing data (MITM). It may return several chunks.
 }
 
@@ -181,6 +182,16 @@ func (c *Conn) Write(p []byte) (int, error) {
 		// peer gone: like a TCP reset
 		return 0, errors.New("wire: write on closed connection")
 	}
+	if c.failNext {
+		c.failNext = false
+		half := p[:len(p)/2]
+		if c.out.tap != nil {
+			c.out.tap(half)
+		}
+		c.out.buf = append(c.out.buf, half...)
+		h.cond.Broadcast()
+		return len(half), errTransport{}
+	}
 	// the tap observes what the endpoint wrote (before any man-in-the-middle filter)
 	if c.out.tap != nil {
 		c.out.tap(p)
@@ -195,6 +206,15 @@ func (c *Conn) Write(p []byte) (int, error) {
 	h.cond.Broadcast()
 	return len(p), nil
 }
+
+// FailNextWrite makes the next Write of this end deliver half of its bytes and return a (temporary-looking) error.
+func (c *Conn) FailNextWrite() { c.hub.mu.Lock(); c.failNext = true; c.hub.mu.Unlock() }
+
+type errTransport struct{}
+
+func (errTransport) Error() string   { return "wire: injected transport write failure" }
+func (errTransport) Timeout() bool   { return true }
+func (errTransport) Temporary() bool { return true }
 
 // Inject appends raw bytes to what the peer of c will read (bypassing filter and tap).
 func (c *Conn) Inject(p []byte) {
